@@ -138,6 +138,10 @@ static void c13_qsort(void *base, size_t n, size_t sz,
 #ifndef RD_CASE
 #define RD_CASE RD_ADD_FILE
 #endif
+#ifndef RD_N0
+#define RD_N0 2
+#define RD_M0 2
+#endif
 
 void harness(void)
 {
@@ -149,7 +153,8 @@ void harness(void)
 
 #if RD_CASE == RD_ADD_FILE
 	{
-		size_t n0 = verif_nd_size("num_files"), m0 = verif_nd_size("max_files");
+		/* shape concrete (DESIGN 2.4): fill level / capacity per case */
+		size_t n0 = RD_N0, m0 = RD_M0;
 		size_t i;
 		char *p;
 		sqfs_tree_node_t *node = rd_node(0, S_IFREG | 0644);
@@ -188,9 +193,12 @@ void harness(void)
 				     files[n0].path != NULL && g_paths_live == n0 + 1,
 				     "C13.add_file.stores");
 		}
-		VERIF_COVER(ret == 0 && g_allocs == 1 && n0 == 2);
+#if RD_N0 == RD_M0
+		VERIF_COVER(ret == 0 && g_allocs == 1);
+		VERIF_COVER(ret != 0 && g_alloc_faults == 1);
+#else
 		VERIF_COVER(ret == 0 && g_allocs == 0);
-		VERIF_COVER(ret != 0 && g_alloc_faults == 1 && n0 == 2);
+#endif
 		VERIF_COVER(ret != 0 && g_alloc_faults == 0 && g_paths_made == 1);
 
 		clear_file_list();
